@@ -31,12 +31,12 @@ theorem resymFastB_imp {h after : CHeap} (x : resymFastB h after = true) : resym
   intro n _
   simp [symLookup, f]
 
-def stepsFastB (Q : CLambda → Bool) (before after : CHeap) : Bool :=
+def stepsFastB (Q : CHeap → CLambda → Bool) (before after : CHeap) : Bool :=
   match (replay Q after (newCount before after) before).bind (globReplay (newGlobs before after)) with
   | some h => resymFastB h after
   | none => false
 
-theorem stepsFastB_imp {Q : CLambda → Bool} {before after : CHeap} (x : stepsFastB Q before after = true) :
+theorem stepsFastB_imp {Q : CHeap → CLambda → Bool} {before after : CHeap} (x : stepsFastB Q before after = true) :
     stepsB Q before after = true := by
   unfold stepsFastB at x
   unfold stepsB
@@ -48,7 +48,7 @@ def installsFastB (e : Datum) (fuel : Nat) (before after : St CHeap) (entry : Na
   regsEqB before after &&
   match compileRunnable e fuel with
   | .ok (st, lam, ent) =>
-    stepsFastB (loadedQB (lam :: ent :: st.lambdas)) before.heap after.heap && entryB ent after.heap entry &&
+    stepsFastB (loadedQB (st.lambdas ++ [lam]) (lam :: ent :: st.lambdas)) before.heap after.heap && entryB ent after.heap entry &&
       nonFreeB after.heap entry && !nonFreeB before.heap entry
   | .error _ => false
 
@@ -68,7 +68,7 @@ theorem installsFastB_imp {e : Datum} {fuel : Nat} {before after : St CHeap} {en
     exact ⟨⟨⟨stepsFastB_imp y.1.1.1, y.1.1.2⟩, y.1.2⟩, y.2⟩
 
 def garbageFastB (before after : St CHeap) : Bool :=
-  regsEqB before after && stepsFastB codeOkB before.heap after.heap
+  regsEqB before after && stepsFastB codeOkHB before.heap after.heap
 
 theorem garbageFastB_imp {before after : St CHeap} (x : garbageFastB before after = true) :
     garbageB before after = true := by
